@@ -41,8 +41,16 @@ type obsCtx struct {
 	fired  atomic.Bool
 }
 
-func newObsCtx() *obsCtx {
+// errAppReason is what the application records as its reason for giving up
+// (context.WithCancelCause): the context's error stays context.Canceled.
+var errAppReason = errors.New("verif: the application's own reason for giving up")
+
+func newObsCtx(withCause bool) *obsCtx {
 	c, cancel := context.WithCancel(context.Background())
+	if withCause {
+		cc, cancelCause := context.WithCancelCause(context.Background())
+		c, cancel = cc, func() { cancelCause(errAppReason) }
+	}
 	o := &obsCtx{Context: c, cancel: cancel}
 	o.arm.Store("")
 	return o
@@ -498,7 +506,7 @@ func check(t interface {
 
 	// start all requests
 	for _, r := range tc.reqs {
-		r.ctx = newObsCtx()
+		r.ctx = newObsCtx(r.k%2 == 1)
 		r.done = make(chan struct{})
 		r.release = make(chan struct{})
 		r.holding = make(chan struct{})
